@@ -7,6 +7,7 @@ import (
 	"fmt"
 	"go/token"
 	"go/types"
+	"sort"
 	"strings"
 
 	"golang.org/x/tools/go/ssa"
@@ -25,7 +26,7 @@ type Region struct {
 	Text    string
 	Leaves  []string // sort of the leaf at each cell offset (small regions of known type)
 	Via     []viaTag
-	Elem    bool // the region is one whole element of a slice (s[i])
+	Elem    bool   // the region is one whole element of a slice (s[i])
 	Ghost   string // ghost integer <name> of the object Ref
 	Object  bool   // every cell of the object Ref (object(x))
 }
@@ -177,7 +178,23 @@ func (f *FnEnc) regions(se *SpecEnv, mods []SExpr) []Region {
 	return out
 }
 
+// region evaluates a modifies designator.  A designator whose evaluation
+// dereferences a nil pointer denotes no memory at all (a write through a nil
+// pointer panics, it never completes): its reference becomes -1, which is
+// no object.
 func (f *FnEnc) region(se *SpecEnv, m SExpr) Region {
+	var derefs []string
+	saved := se.derefs
+	se.derefs = &derefs
+	r := f.region1(se, m)
+	se.derefs = saved
+	if len(derefs) > 0 && r.Ref != "" {
+		r.Ref = f.c.define("rgref", SInt, ite(and(derefs...), r.Ref, "(- 1)"))
+	}
+	return r
+}
+
+func (f *FnEnc) region1(se *SpecEnv, m SExpr) Region {
 	text := fmt.Sprint(m)
 	if ix, ok := m.(SIndex); ok {
 		if id, ok := ix.I.(SIdent); ok && id.Name == "*" {
@@ -453,6 +470,57 @@ func (f *FnEnc) havocAllOpt(st *State, keepGhost bool) {
 	}
 }
 
+// globalLockCells returns the lock-ghost cells of the mutexes declared with
+// `guarded var` (global mutexes), with their names.
+func (f *FnEnc) globalLockCells(st *State) (cells []Addr, names []string) {
+	var keys []string
+	for k := range f.eng.guarded {
+		if strings.Contains(k, ".var ") {
+			keys = append(keys, k)
+		}
+	}
+	sort.Strings(keys)
+	for _, k := range keys {
+		i := strings.Index(k, ".var ")
+		tp := f.eng.tpkgs[k[:i]]
+		if tp == nil {
+			continue
+		}
+		text := k[i+5:] + "." + f.eng.guarded[k].mu
+		ex, err := parseExpr(text)
+		if err != nil {
+			continue
+		}
+		func() {
+			defer func() { recover() }()
+			se := &SpecEnv{f: f, pkg: tp, vars: map[string]Val{}, oldVars: map[string]Val{}, cur: st, guard: "true"}
+			a, t := se.addrOf(ex)
+			cells = append(cells, a.plusSub(f.heldOffset(t)))
+			names = append(names, tp.Name()+"."+text)
+		}()
+	}
+	return
+}
+
+// havocCall is the effect of a call that may modify all of memory: every
+// heap becomes arbitrary, except that the lock ghosts of global mutexes stay
+// as they were (a callee whose contract does not name held(mu) is
+// lock-balanced: checked for verified callees, assumed for trusted ones).
+func (f *FnEnc) havocCall(st *State, keepGhost bool) {
+	cells, _ := f.globalLockCells(st)
+	olds := make([]string, len(cells))
+	for i, a := range cells {
+		olds[i] = f.c.define("heldpre", SBool, f.loadLeaf(st, SBool, a))
+	}
+	f.havocAllOpt(st, keepGhost)
+	for i, a := range cells {
+		f.storeLeaf(st, SBool, a, olds[i])
+	}
+	if len(cells) > 0 {
+		f.c.trusted["callees whose contract does not name held(mu) leave the lock ghosts of global mutexes unchanged (proved for verified callees, assumed for trusted and external ones)"] = true
+	}
+}
+
 func (f *FnEnc) bumpAlloc(st *State, R string) {
 	na := f.c.fresh("alloc", SInt)
 	f.c.assume(R, "(<= "+st.alloc+" "+na+")")
@@ -606,7 +674,14 @@ func (f *FnEnc) evalClause(se *SpecEnv, c Clause) (formula string) {
 		if r := recover(); r != nil {
 			switch e := r.(type) {
 			case specErr:
-				panic(specErr{fmt.Sprintf("%s:%d: %s (in %q)", c.File, c.Line, e.msg, c.Text)})
+				if e.gone && se.goal {
+					// a proof goal about a call the code no longer makes cannot
+					// be stated: it is reported as a failed obligation
+					f.c.pendingGone = e.msg
+					formula = "false"
+					return
+				}
+				panic(specErr{msg: fmt.Sprintf("%s:%d: %s (in %q)", c.File, c.Line, e.msg, c.Text)})
 			}
 			panic(r)
 		}
@@ -634,7 +709,17 @@ func (f *FnEnc) havocLoop(fr *Frame, li *loopInfo, ls *LoopSpec, st *State) *Sta
 			f.havocRegions(st, *f.entryRegions)
 			f.havocFresh(st)
 		default:
+			// everything may change, except that an iteration leaves the
+			// global mutexes as it found them (checked at the back edges)
+			li.lockCells, li.lockNames = f.globalLockCells(st)
+			li.lockVals = nil
+			for _, a := range li.lockCells {
+				li.lockVals = append(li.lockVals, f.c.define("heldhead", SBool, f.loadLeaf(st, SBool, a)))
+			}
 			f.havocAll(st)
+			for i, a := range li.lockCells {
+				f.storeLeaf(st, SBool, a, li.lockVals[i])
+			}
 		}
 		na := f.c.fresh("alloc", SInt)
 		f.c.assume("true", "(<= "+st.alloc+" "+na+")")
@@ -723,7 +808,14 @@ func (f *FnEnc) call(fr *Frame, st *State, R string, in ssa.Value, cc *ssa.CallC
 			fnv = &v
 		}
 	}
+	f.topCallKey = ""
 	f.callWith(fr, st, R, in, cc, args, fnv, pos)
+	if fr == f.top && f.topCallKey != "" {
+		if f.callStates == nil {
+			f.callStates = map[string]*State{}
+		}
+		f.callStates[f.topCallKey] = st.clone()
+	}
 }
 
 func (f *FnEnc) setResult(fr *Frame, in ssa.Value, v Val) {
@@ -767,14 +859,13 @@ func (f *FnEnc) callWith(fr *Frame, st *State, R string, in ssa.Value, cc *ssa.C
 		key := ifaceKey(cc)
 		con := f.eng.ifaceContract(key)
 		ord := f.nextCall(cc.Method.Name())
-		f.callAssertsNamed(fr, st, R, cc.Method.Name(), ord, nil, append([]Val{recv}, args...), pos)
+		names := []string{"self"}
+		for i, sig := 0, cc.Signature(); i < sig.Params().Len(); i++ {
+			names = append(names, sig.Params().At(i).Name())
+		}
+		f.callAssertsNamed(fr, st, R, cc.Method.Name(), ord, names, append([]Val{recv}, args...), pos)
 		if con != nil {
 			all := append([]Val{recv}, args...)
-			names := []string{"self"}
-			sig := cc.Signature()
-			for i := 0; i < sig.Params().Len(); i++ {
-				names = append(names, sig.Params().At(i).Name())
-			}
 			f.c.trusted["iface contract "+key] = true
 			res := f.applyContract(fr, st, R, con, names, all, rt, cc.Method.Name(), ord, pos, key)
 			f.setResult(fr, in, res)
@@ -841,6 +932,7 @@ func (f *FnEnc) nextCall(name string) int {
 	} else if ord, ok := f.srcOrd[f.curCallPos]; ok && f.curCallPos.IsValid() {
 		f.callOrd[name] = ord
 		f.lastCall = fmt.Sprintf("%s#%d", name, ord)
+		f.topCallKey = f.lastCall
 		if f.eng.traceCalls {
 			fmt.Printf("  call %-40s at line %d\n", f.lastCall, f.pos(f.curCallPos).Line)
 		}
@@ -848,6 +940,9 @@ func (f *FnEnc) nextCall(name string) int {
 	}
 	f.callOrd[name]++
 	f.lastCall = fmt.Sprintf("%s#%d", name, f.callOrd[name])
+	if f.curFrame == nil || f.curFrame == f.top {
+		f.topCallKey = f.lastCall
+	}
 	if f.eng.traceCalls && f.curFrame == f.top {
 		fmt.Printf("  call %-40s at line %d\n", f.lastCall, f.pos(f.curPos).Line)
 	}
@@ -916,7 +1011,7 @@ func (f *FnEnc) unknownCall(fr *Frame, st *State, R string, in ssa.Value, rt typ
 		return
 	}
 	f.c.notes["call without contract, heaps havocked: "+what] = true
-	f.havocAll(st)
+	f.havocCall(st, false)
 	f.bumpAlloc(st, R)
 	if in != nil {
 		v := f.freshVal("ret", rt)
@@ -1003,9 +1098,26 @@ func (f *FnEnc) callAssertsNamed(fr *Frame, st *State, R string, short string, o
 			se.vars[fmt.Sprintf("arg%d", i)] = args[i]
 		}
 		label := ca.Clause.Label
+		var watch []WatchTerm
+		for _, w := range f.eng.watch {
+			func() {
+				defer func() {
+					if r := recover(); r != nil {
+						watch = append(watch, WatchTerm{Text: w + " (error: " + fmt.Sprint(r) + ")"})
+					}
+				}()
+				ex, err := parseExpr(w)
+				if err != nil {
+					panic(err)
+				}
+				se.goal = false
+				v := se.eval(ex, nil)
+				watch = append(watch, WatchTerm{Text: w, Terms: v.L})
+			}()
+		}
 		se.goal = true
 		f.c.oblige(Item{Guard: R, Formula: f.evalClause(se, ca.Clause), Name: f.eng.fnKey(fr.fn) + fmt.Sprintf("/at-call:%s#%d:%s", short, ord, label), Class: "assert",
-			Pos: f.pos(pos), Text: ca.Clause.Text})
+			Pos: f.pos(pos), Text: ca.Clause.Text, Watch: watch})
 	}
 }
 
@@ -1045,7 +1157,10 @@ func (f *FnEnc) applyContract(fr *Frame, st *State, R string, con *Contract, nam
 		switch {
 		case !con.HasMod || con.ModAll:
 			f.c.notes["contract without modifies clause, heaps havocked: "+calleeKey] = true
-			f.havocAllOpt(st, con.HasMod)
+			f.havocCall(st, con.HasMod)
+			if len(con.Modifies) > 0 {
+				f.havocRegions(st, f.regions(mk(pre), con.Modifies))
+			}
 		default:
 			rs := f.regions(mk(pre), con.Modifies)
 			f.havocRegions(st, rs)
@@ -1126,6 +1241,75 @@ func resultNames(e *Eng, key string) []string {
 
 // pureResult is an uninterpreted function of the arguments and of the
 // objects they point to.
+// mapVersion numbers the distinct map states met while encoding: the same
+// number means the same epoch and the same terms for every map heap that has
+// been written since (heaps only created lazily do not count).
+func (f *FnEnc) mapVersion(st *State) int {
+	var b strings.Builder
+	fmt.Fprintf(&b, "%d", st.epoch)
+	for _, k := range sortedHeapKeys(st.heaps) {
+		if !strings.HasPrefix(k, "map:") || strings.HasPrefix(k, "map:ghost:") {
+			continue
+		}
+		if st.heaps[k] == fmt.Sprintf("%s@%d", sanitize(k), st.epoch) {
+			continue
+		}
+		fmt.Fprintf(&b, "|%s=%s", k, st.heaps[k])
+	}
+	if f.mapVers == nil {
+		f.mapVers = map[string]int{}
+	}
+	d := b.String()
+	if n, ok := f.mapVers[d]; ok {
+		return n
+	}
+	n := len(f.mapVers) + 1
+	f.mapVers[d] = n
+	return n
+}
+
+// assumePurePost: every application of a pure function satisfies the
+// function's postconditions whenever its preconditions hold (the contract is
+// verified, or trusted, for all inputs).  Used for applications written in
+// specifications; applications in the code get the same through applyContract.
+func (f *FnEnc) assumePurePost(se *SpecEnv, con *Contract, names []string, args []Val, res Val, rt types.Type, key string) {
+	if se.qdepth != 0 || se.guard == "" || se.depth > 2 || len(con.Ensures) == 0 {
+		return
+	}
+	memo := key + "|" + strings.Join(res.L, ",") + "|" + se.guard
+	if f.pureDone == nil {
+		f.pureDone = map[string]bool{}
+	}
+	if f.pureDone[memo] {
+		return
+	}
+	f.pureDone[memo] = true
+	st := se.state()
+	mk := func() *SpecEnv {
+		e := &SpecEnv{f: f, pkg: f.eng.typesPkg(con.Pkg, se.pkg), vars: map[string]Val{}, oldVars: map[string]Val{}, cur: st, old: st, guard: se.guard, depth: se.depth + 1}
+		for i, n := range names {
+			if i < len(args) && n != "" && n != "_" {
+				e.vars[n] = args[i]
+				e.oldVars[n] = args[i]
+			}
+		}
+		return e
+	}
+	var pre []string
+	for _, rq := range con.Requires {
+		pre = append(pre, f.evalClause(mk(), rq))
+	}
+	e := mk()
+	e.results = splitResults(f, res, flattenResults(rt))
+	e.resName = resultNames(f.eng, key)
+	for _, en := range con.Ensures {
+		if en.Internal {
+			continue
+		}
+		f.c.assume(se.guard, implies(and(pre...), f.evalClause(e, en)))
+	}
+}
+
 func (f *FnEnc) pureResult(st *State, key string, args []Val, rt types.Type, reads string) Val {
 	var as, sorts []string
 	for _, a := range args {
@@ -1160,6 +1344,10 @@ func (f *FnEnc) pureResult(st *State, key string, args []Val, rt types.Type, rea
 			as = append(as, f.heap(st, so))
 			sorts = append(sorts, heapSort(so))
 		}
+		// the maps: a version number that is equal only for states whose
+		// map heaps are the same terms
+		as = append(as, fmt.Sprint(f.mapVersion(st)))
+		sorts = append(sorts, SInt)
 	}
 	rs := f.l.leafSorts(rt)
 	out := Val{T: rt, L: make([]string, len(rs))}
